@@ -289,8 +289,16 @@ func runC14(c *Ctx) {
 	if f := c.fn("netutil", "Prefix.UnmarshalText"); f != nil {
 		b := f.Params[1]
 		var contains *ssa.Call
-		for _, ci := range core.CallsTo(f, "bytes.Contains", "bytes.ContainsRune", "bytes.IndexByte") {
+		for _, ci := range core.CallsTo(f, "bytes.Contains", "bytes.ContainsRune", "bytes.IndexByte", "bytes.IndexRune") {
 			contains = ci.(*ssa.Call)
+		}
+		for _, ci := range core.AllCalls(f) {
+			// the generic forms: slices.Contains(b, '/'), slices.Index(b, '/')
+			if call, ok := ci.(*ssa.Call); ok {
+				if n := core.CalleeName(&call.Call); strings.HasPrefix(n, "slices.Contains[") || strings.HasPrefix(n, "slices.Index[") {
+					contains = call
+				}
+			}
 		}
 		okC := false
 		if contains != nil && contains.Call.Args[0] == ssa.Value(b) {
